@@ -15,6 +15,13 @@ import (
 // SmallOpts are store options sized for cheap opens (store.Open preallocates
 // MaxConcurrency × MaxTxEntries × MaxKeyLen).
 func SmallOpts() *store.Options {
+	o := smallOpts()
+	// the hash tree's default write buffer is 16 MiB for each of its three logs: clearing it dominates Open
+	o.WithAHTOptions(o.AHTOpts.WithWriteBufferSize(1 << 14))
+	return o
+}
+
+func smallOpts() *store.Options {
 	return store.DefaultOptions().
 		WithMaxTxEntries(16).WithMaxKeyLen(64).WithMaxConcurrency(4).
 		WithMaxValueLen(1 << 12).
